@@ -120,6 +120,9 @@ type verifC14Caller struct {
 	ForgedXFCC string       `json:"forged_xfcc,omitempty"`
 	Class      string       `json:"class"` // how the generator derived it (informational + non-triviality)
 	Req        *verifC14Req `json:"req,omitempty"`
+
+	// derived once per caller (not part of the encoding): what Envoy sees of the connection
+	principal, xfcc string
 }
 
 const (
@@ -566,31 +569,38 @@ func verifC14Requote(pattern string, quoteHost, escape bool) (string, bool) {
 	return head + scheme + host + strings.Join(parts, `[^/]+`) + tail, true
 }
 
-func verifC14ConnOf(p *verifC14Program, c *verifC14Caller) *verifC14Conn {
-	conn := &verifC14Conn{HTTP: p.HTTP}
+// verifC14Identify derives the connection-level facts of a caller: the authenticated principal (URI SAN) and
+// the x-forwarded-client-cert header the HTTP filter will see.
+func verifC14Identify(p *verifC14Program, c *verifC14Caller) {
 	origin := verifC14ServiceURI(c.TrustDomain, c.Partition, c.Namespace, c.Datacenter, c.Service)
 	dest := verifC14ServiceURI(p.TrustDomain, "", "default", verifC14LocalDC, verifC14Dest)
-	certStuff := `Hash=0f1e2d3c4b5a69788796a5b4c3d2e1f00f1e2d3c4b5a69788796a5b4c3d2e1f0;Cert="-----BEGIN%20CERTIFICATE-----%0AMIIC%2Bg%3D%3D%0A-----END%20CERTIFICATE-----%0A";Chain="-----BEGIN%20CERTIFICATE-----%0AMIIC%2Bg%3D%3D%0A-----END%20CERTIFICATE-----%0A";Subject=""`
-	var xfcc string
+	const certStuff = `Hash=0f1e2d3c4b5a69788796a5b4c3d2e1f00f1e2d3c4b5a69788796a5b4c3d2e1f0;Cert="-----BEGIN%20CERTIFICATE-----%0AMIIC%2Bg%3D%3D%0A-----END%20CERTIFICATE-----%0A";Chain="-----BEGIN%20CERTIFICATE-----%0AMIIC%2Bg%3D%3D%0A-----END%20CERTIFICATE-----%0A";Subject=""`
 	if c.Via == "gateway" {
 		gw := verifC14GatewayURI(c.GwTrustDomain, c.GwPartition, c.GwDatacenter)
-		conn.Principal = gw
+		c.principal = gw
 		// the gateway SANITIZE_SETs the header with the caller it authenticated; the sidecar APPENDs the gateway
-		xfcc = "By=" + gw + ";" + certStuff + ";URI=" + origin + ",By=" + dest + ";" + certStuff + ";URI=" + gw
-	} else {
-		conn.Principal = origin
-		xfcc = "By=" + dest + ";" + certStuff + ";URI=" + origin
-		if c.ForgedXFCC != "" {
-			xfcc = c.ForgedXFCC + "," + xfcc
-		}
+		c.xfcc = "By=" + gw + ";" + certStuff + ";URI=" + origin + ",By=" + dest + ";" + certStuff + ";URI=" + gw
+		return
 	}
+	c.principal = origin
+	c.xfcc = "By=" + dest + ";" + certStuff + ";URI=" + origin
+	if c.ForgedXFCC != "" {
+		c.xfcc = c.ForgedXFCC + "," + c.xfcc
+	}
+}
+
+func verifC14ConnOf(p *verifC14Program, c *verifC14Caller) *verifC14Conn {
+	if c.principal == "" {
+		verifC14Identify(p, c)
+	}
+	conn := &verifC14Conn{HTTP: p.HTTP, Principal: c.principal}
 	if p.HTTP && c.Req != nil {
 		conn.Method, conn.Path = c.Req.Method, c.Req.Path
-		conn.Headers = map[string]string{}
+		conn.Headers = make(map[string]string, len(c.Req.Headers)+1)
 		for _, kv := range c.Req.Headers {
 			conn.Headers[strings.ToLower(kv[0])] = kv[1]
 		}
-		conn.Headers["x-forwarded-client-cert"] = xfcc
+		conn.Headers["x-forwarded-client-cert"] = c.xfcc
 	}
 	return conn
 }
@@ -1118,6 +1128,7 @@ func verifC14Run(f verifkit.F, c *verifkit.Case, rec *verifkit.Rec, p *verifC14P
 		}
 		for i := range callers {
 			cl := callers[i]
+			verifC14Identify(p, &cl)
 			if !p.HTTP {
 				verifC14CheckOne(f, c, rec, cp, &cl, st)
 				continue
@@ -1240,17 +1251,17 @@ func verifC14Bucket(n int) string {
 // generators
 
 var (
-	verifC14NamePool = []string{"web", "db", "web.v1", "webxv1", "a+b", "aab", "a|b", "a", "x(y)", "xy", "cron$", "cron"}
-	verifC14PlainPool = []string{"web", "db", "web.v1", "webxv1", "a+b", "aab", "cron$", "cron"}
-	verifC14HdrNames = []string{"x-team", "X-Env", "x-ver"}
-	verifC14ExactPaths = []string{"/", "/v1", "/v1/secret", "/admin", "/a.b", "/a+b", "/healthz", "/V1"}
+	verifC14NamePool    = []string{"web", "db", "web.v1", "webxv1", "a+b", "aab", "a|b", "a", "x(y)", "xy", "cron$", "cron"}
+	verifC14PlainPool   = []string{"web", "db", "web.v1", "webxv1", "a+b", "aab", "cron$", "cron"}
+	verifC14HdrNames    = []string{"x-team", "X-Env", "x-ver"}
+	verifC14ExactPaths  = []string{"/", "/v1", "/v1/secret", "/admin", "/a.b", "/a+b", "/healthz", "/V1"}
 	verifC14PrefixPaths = []string{"/", "/v1", "/v1/", "/admin", "/a.", "/api/v2"}
-	verifC14HdrExact = []string{"alpha", "al.ha", "team-1", "v1.2", "A"}
-	verifC14HdrPrefix = []string{"al", "team-", "v1."}
-	verifC14HdrSuffix = []string{"ha", "-1", ".2"}
+	verifC14HdrExact    = []string{"alpha", "al.ha", "team-1", "v1.2", "A"}
+	verifC14HdrPrefix   = []string{"al", "team-", "v1."}
+	verifC14HdrSuffix   = []string{"ha", "-1", ".2"}
 	verifC14HdrContains = []string{"ph", "m-", "."}
-	verifC14ReqPaths = []string{"/", "/v1", "/v1/x", "/v1/secret", "/v12/abc", "/admin", "/admin/x", "/adminx", "/a.b", "/axb", "/a+b", "/foo", "/bar", "/healthz", "/x.php", "/abc", "/zz"}
-	verifC14ReqVals = []string{"alpha", "Alpha", "ALPHA", "alphabet", "beta", "al.ha", "alxha", "team-1", "TEAM-1", "v1.2", "v1x2", "", "zzha", "a"}
+	verifC14ReqPaths    = []string{"/", "/v1", "/v1/x", "/v1/secret", "/v12/abc", "/admin", "/admin/x", "/adminx", "/a.b", "/axb", "/a+b", "/foo", "/bar", "/healthz", "/x.php", "/abc", "/zz"}
+	verifC14ReqVals     = []string{"alpha", "Alpha", "ALPHA", "alphabet", "beta", "al.ha", "alxha", "team-1", "TEAM-1", "v1.2", "v1x2", "", "zzha", "a"}
 )
 
 func verifC14GenHdr(t *rapid.T) verifC14Hdr {
